@@ -205,12 +205,7 @@ def run(ctx):
     ctx.cov['rule'] = ('events = BASIC statements executed on a real Session, each followed by CSRLIN, POS(0), get_chars() and SCREEN(r,c) samples; '
                        'distinct by (statement, observed cursor, window, changed rows); non-trivial = everything except refused statements')
     # 1. design: exhaustive bounded check of the 5x4 model + deep random walks of the same model
-    # (not ctx.model_check: TLC's -coverage bookkeeping makes this recursion-heavy model ~30x slower and exhausts the heap)
-    r = ctx.tlc('TextScreen_MC', ctx.pick('TextScreen_MC.cfg', 'TextScreen_MC_deep.cfg'), workers=4, tag='exhaustive bounded model check')
-    ctx.cov['states'] += r['distinct']
-    ctx.cov['transitions'] += r['generated']
-    if not r['ok']:
-        ctx.reject('TLC model check of TextScreen_MC failed: %s' % r['error'], key={'clause': 'model_check'}, data=r['out'][-4000:])
+    r = ctx.model_check('TextScreen_MC', cfg=ctx.pick('TextScreen_MC.cfg', 'TextScreen_MC_deep.cfg'), workers=4, require_actions=False)
     if r['distinct'] < 1000:
         raise core.MachineryError('model check explored only %d states' % r['distinct'])
     wcfg = ctx.path('walk.cfg')
